@@ -918,7 +918,14 @@ func evalHistory(c *historyCase, st *stats) *harness.Fail {
 					return fail
 				}
 			}
-			file, fail := encodeAll(b, useSW, opt)
+			encOpt := opt
+			if c.TrexDrop {
+				// the presence flags were rewritten by hand above (the library's own optimisation of the first traf
+				// included): the encoders must not optimise once more on top of that state, which no sequence of API
+				// calls produces (a library that optimises every traf would meet truns whose fields are already gone)
+				encOpt = mp4.OptimizeNone
+			}
+			file, fail := encodeAll(b, useSW, encOpt)
 			if fail != nil {
 				fail.Msg = vname + ": " + fail.Msg
 				switch {
